@@ -53,6 +53,8 @@ class FnModel:
         if self.INLINE:
             from .view import component_node
             self.node, self.inlined = component_node(index, func)
+            from .normalise import ssa_params
+            self.node = ssa_params(self.node)
         else:
             self.node, self.inlined = func.node, []
         self.walk = walk_function(self.node)
